@@ -186,7 +186,7 @@ func TestC01Concurrent(t *testing.T) {
 	defer vt.Watch("TestC01Concurrent", 120*time.Second)()
 	rec := vt.For("C01")
 	rec.Rule("free-running (statistical, under the race detector): 1-3 hosts and 2-6 clients on badger/memory; in each round every agent sends its keep-alive at the same virtual instant from its own goroutine while wallet links race the billing; workload is commutative, so at quiescence every balance must equal the model exactly and the ledger total must be 0 (exposes swallowed badger transaction conflicts); non-trivial = >=2 concurrent clients; distinct by config + wallets + link schedule")
-	rapid.Check(t, func(rt *rapid.T) {
+	check(t, func(rt *rapid.T) {
 		rapid.SyncTest(rt, func(rt *rapid.T) { concCase(rt, "C01", rec) })
 	})
 }
